@@ -125,6 +125,7 @@ type result struct {
 	Base  stepOut   `json:"base"` // state before the first op
 	Steps []stepOut `json:"steps"`
 	Panic *string   `json:"panic"`
+	Unsettled bool  `json:"unsettled"`
 }
 
 // ---- cluster handling
@@ -343,12 +344,34 @@ func (cl *clusterT) byName(name string) (chanOut, bool) {
 	return chanOut{}, false
 }
 
+func (cl *clusterT) liveExternal() []chanOut {
+	ms, err := cl.metaOf(cl.nodeKeys()[0])
+	if err != nil {
+		return nil
+	}
+	out := []chanOut{}
+	for _, c := range ms {
+		if !c.Internal {
+			out = append(out, c)
+		}
+	}
+	return out
+}
+
 func (cl *clusterT) resolve(o op) []uint32 {
 	out := make([]uint32, 0, len(o.Keys))
 	for i, k := range o.Keys {
 		if i < len(o.By) && o.By[i] != "" {
 			if c, ok := cl.byName(o.By[i]); ok {
 				k = c.Key
+			} else if live := cl.liveExternal(); len(live) > 0 {
+				// the generator aimed at a channel that does not exist (its create failed):
+				// take some live non-system channel instead, chosen by the name
+				h := 0
+				for _, b := range []byte(o.By[i]) {
+					h = h*31 + int(b)
+				}
+				k = live[h%len(live)].Key
 			}
 		} else if i < len(o.Dead) && o.Dead[i] >= 0 && len(cl.deleted) > 0 {
 			k = cl.deleted[o.Dead[i]%len(cl.deleted)]
@@ -499,7 +522,14 @@ func runCase(c tcase) (res result) {
 	cur = provision(c.Nodes, c.Validate)
 	cur.observe(&res.Base)
 	for _, o := range c.Ops {
-		res.Steps = append(res.Steps, cur.run(o))
+		st := cur.run(o)
+		res.Steps = append(res.Steps, st)
+		if !st.Agree {
+			// the aspen gossip did not deliver some update to every node: the history cannot be
+			// observed any further (convergence of the KV replicas is property C06, not C15)
+			res.Unsettled = true
+			break
+		}
 	}
 	_ = cur.c.Close()
 	cur = nil
